@@ -86,10 +86,10 @@ func arrayIndex(key string) (int, bool) {
 }
 
 // mapKey: the Go key a property name denotes for key type kt.
-// status: "ok" canonical, "lenient" (a numeric string that is not the canonical decimal form of an
-// in-range integer: refusing or using the integer are both acceptable), "gosyntax" (accepted by
-// Go's base-0 integer syntax but not a JavaScript numeric string for the same value: class
-// C16-MAP-KEY-BASE0), "invalid".
+// status: "ok" canonical, "lenient" (a numeric string - ES5 9.3.1 - that is not the canonical
+// decimal form of an in-range integer: refusing or using that integer are both acceptable),
+// "invalid" (names no key). goSyntaxKey marks the names Go's base-0 integer syntax reads
+// differently (class C16-MAP-KEY-BASE0).
 func mapKey(key string, kt reflect.Type) (k string, status string) {
 	if kt.Kind() == reflect.String {
 		return key, "ok"
@@ -101,11 +101,6 @@ func mapKey(key string, kt reflect.Type) (k string, status string) {
 		}
 		return key, "ok"
 	}
-	goSyntax := strings.Contains(key, "_") || strings.HasPrefix(strings.TrimLeft(key, "+-"), "0b") || strings.HasPrefix(strings.TrimLeft(key, "+-"), "0o") ||
-		(len(strings.TrimLeft(key, "+-")) > 1 && strings.TrimLeft(key, "+-")[0] == '0' && strings.Trim(strings.TrimLeft(key, "+-"), "0123456789") == "")
-	if goSyntax {
-		return "", "gosyntax"
-	}
 	n := es5.StringToNumber(harness.UTF16(key))
 	if n == math.Trunc(n) && !math.IsInf(n, 0) {
 		i, _ := new(big.Float).SetFloat64(n).Int(nil)
@@ -114,6 +109,15 @@ func mapKey(key string, kt reflect.Type) (k string, status string) {
 		}
 	}
 	return "", "invalid"
+}
+
+func goSyntaxKey(key string, kt reflect.Type) bool {
+	if kt.Kind() == reflect.String {
+		return false
+	}
+	body := strings.TrimLeft(key, "+-")
+	return strings.Contains(key, "_") || strings.HasPrefix(body, "0b") || strings.HasPrefix(body, "0B") || strings.HasPrefix(body, "0o") || strings.HasPrefix(body, "0O") ||
+		(len(body) > 1 && body[0] == '0' && strings.Trim(body, "0123456789") == "")
 }
 
 func kindRange(k reflect.Kind) (lo, hi *big.Int) {
@@ -248,9 +252,19 @@ func expectStep(c contSpec, st histState, s step) stepExpect {
 					e.classes = append(e.classes, "write:unexported-name")
 					e.hard = true
 				} else {
-					e.asserted, e.unchanged, e.silentOK = true, true, true
+					// an exported field hidden from conversions (json:"-") but readable by its Go
+					// name: the write is ignored, or stores the exact value like any field
+					d := m16.Denote(*s.Val, f.Type, "call")
+					writeElem(&e, d, func(v m16.GV) m16.GV { return rewrap(full, m16.SetPath(sg, styp, f.Index, v)) })
+					e.waive = nil
+					if e.asserted {
+						e.unchanged, e.silentOK = true, true
+					}
 					e.classes = append(e.classes, "write:json-dash-field")
 					e.known = append(e.known, m16.KShadow)
+					if c.Kind == "vstruct" {
+						e.known = append(e.known, m16.KStructVal)
+					}
 				}
 			default:
 				e.asserted, e.unchanged, e.silentOK = true, true, true
@@ -328,10 +342,10 @@ func expectStep(c contSpec, st histState, s step) stepExpect {
 		case "set", "define":
 			k, status := mapKey(s.Key, mt.Key())
 			e.classes = append(e.classes, "key:"+status)
-			switch status {
-			case "gosyntax":
+			if goSyntaxKey(s.Key, mt.Key()) {
 				e.known = append(e.known, m16.KKeyBase0)
-				fallthrough
+			}
+			switch status {
 			case "invalid":
 				e.asserted, e.unchanged, e.silentOK = true, true, true
 				e.waive = append(e.waive, m16.KStorePanic)
@@ -348,10 +362,10 @@ func expectStep(c contSpec, st histState, s step) stepExpect {
 			k, status := mapKey(s.Key, mt.Key())
 			e.classes = append(e.classes, "delete", "key:"+status)
 			e.asserted = true
-			switch status {
-			case "gosyntax":
+			if goSyntaxKey(s.Key, mt.Key()) {
 				e.known = append(e.known, m16.KKeyBase0)
-				fallthrough
+			}
+			switch status {
 			case "invalid":
 				e.unchanged, e.silentOK = true, true
 				e.waive = append(e.waive, m16.KStorePanic)
@@ -505,6 +519,9 @@ func expectStep(c contSpec, st histState, s step) stepExpect {
 					c := l.Clone()
 					c.Elems = c.Elems[:n-1]
 					e.accept = append(e.accept, c)
+					e.result = goJD(l.Elems[n-1])
+				} else {
+					e.silentOK = true // nothing to pop
 				}
 				e.unchanged = true
 			} else {
